@@ -5,6 +5,7 @@ package gen
 import (
 	"math"
 	"math/rand"
+	"sort"
 	"strings"
 	"time"
 	"unicode/utf8"
@@ -303,3 +304,5 @@ func Interesting(printed string) bool {
 	}
 	return false
 }
+
+func sortStrings(xs []string) { sort.Strings(xs) }
